@@ -151,6 +151,9 @@ def run_once_e3(cfg: E3Config, chooser: Chooser, *, world_hook=None, around_run=
         elif len(occupying) > eff_workers:
             gt.append(('C04', 'max-workers-at-rest', f'{len(occupying)} processes at rest > max_workers={eff_workers}'))
 
+    world.on_join_block.append(lambda w, child: gt.append(
+        ('C05', 'blocked-on-worker-exit', f'the scheduling loop waits for the worker process of {child.task_key} to exit although its result '
+                                          'has been received (the process lingers): nothing else is started or collected meanwhile')))
     world.on_killed.append(lambda w, child: backend_events.append(('died', child.task_key)))
     world.on_start.append(on_start)
     world.on_rest.append(on_rest)
